@@ -90,7 +90,6 @@ func profC04(t *tape.Tape) model.Profile {
 
 func init() { profiles["c04"] = profC04 }
 
-
 func (c04Driver) Generate(t *tape.Tape, tier string) core.Case {
 	c := &c04Case{}
 	p := profC04(t.Sub("profile"))
@@ -134,11 +133,13 @@ func (c04Driver) Finalize(cc core.Case) {
 
 func countNodes(ms *yang.Modules) int {
 	n := 0
+	seen := map[*yang.Entry]bool{}
 	var walk func(e *yang.Entry, d int)
 	walk = func(e *yang.Entry, d int) {
-		if e == nil || d > 300 {
+		if e == nil || d > 300 || seen[e] {
 			return
 		}
+		seen[e] = true
 		n++
 		for _, c := range e.Dir {
 			walk(c, d+1)
@@ -246,11 +247,13 @@ func (c04Driver) Run(cc core.Case) core.Outcome {
 	// reads that mutate: Find creates rpc input/output on demand
 	created := 0
 	var paths []string
+	visited := map[*yang.Entry]bool{}
 	var walk func(e *yang.Entry, d int)
 	walk = func(e *yang.Entry, d int) {
-		if e == nil || d > 100 {
+		if e == nil || d > 100 || visited[e] {
 			return
 		}
+		visited[e] = true
 		if e.RPC != nil {
 			if e.RPC.Input == nil || e.RPC.Output == nil {
 				created++
